@@ -516,7 +516,9 @@ var reSQLState = regexp.MustCompile(`SQLSTATE [0-9A-Z]{5}`)
 var reMsg = regexp.MustCompile(`msg="((?:[^"\\]|\\.)*)"`)
 
 // errorCause normalises what the server logged for an INTERNAL error into a stable
-// class: the head of the error chain (+ the SQLSTATE, if any), values and numbers removed.
+// class: the head AND the tail (root cause) of the error chain, with the SQLSTATE if any;
+// quoted values and numbers are removed. The head alone ("unexpected error while forging
+// log") is shared by unrelated defects; the tail tells them apart.
 func errorCause(log string) string {
 	ms := reMsg.FindAllStringSubmatch(log, -1)
 	if len(ms) == 0 {
@@ -524,20 +526,30 @@ func errorCause(log string) string {
 	}
 	msg := strings.ReplaceAll(ms[len(ms)-1][1], `\"`, `"`)
 	state := reSQLState.FindString(msg)
-	segs := strings.Split(msg, ": ")
-	head := segs[0]
-	head = reQuoted.ReplaceAllString(head, "_")
-	head = reDigits.ReplaceAllString(head, "N")
-	if len(head) > 90 {
-		head = head[:90]
+	// quoted values go first: they may contain ": "
+	segs := strings.Split(reQuoted.ReplaceAllString(msg, "_"), ": ")
+	norm := func(x string) string {
+		x = reSQLState.ReplaceAllString(x, "")
+		x = reDigits.ReplaceAllString(x, "N")
+		x = strings.TrimSpace(strings.TrimSuffix(strings.TrimSpace(x), "()"))
+		if len(x) > 90 {
+			x = x[:90]
+		}
+		return x
+	}
+	out := norm(segs[0])
+	if len(segs) > 1 {
+		out += " … " + norm(segs[len(segs)-1])
 	}
 	if state != "" {
-		head += " (" + state + ")"
+		out += " (" + state + ")"
 	}
-	return head
+	return out
 }
 
-var reFrame = regexp.MustCompile(`([A-Za-z0-9_./*()\[\]-]+?)(?:\([^@]*\))? @ /repo/([^ :]+):[0-9]+`)
+// <function>(<args>)? @ /repo/<file>:<line> — the function name may itself contain
+// parentheses (method on a pointer receiver), the argument list contains none.
+var reFrame = regexp.MustCompile(`(\S+?)(?:\([^()]*\))? @ /repo/([^ :]+):[0-9]+`)
 
 // siteOf extracts the first frame inside the repository from a panic description as
 // "file.go:function" (no line number: it must survive unrelated edits of the file, and
@@ -571,15 +583,33 @@ func locKind(loc string) string {
 	return loc[:i]
 }
 
-// c38sig builds the structural signature. Failures that have a server-side cause (panic
-// site, crash site, logged error class) are keyed by route + location kind + outcome +
-// cause, so that one defect is one signature whatever field/replacement triggered it;
-// failures without one (accepted, malformed) are keyed by route + pointer class +
-// replacement class + outcome.
+// coarseKind is the input class of a mutation location: body | query | header | path |
+// cursor | cursor-json | filter | query-filter.
+func coarseKind(loc string) string {
+	if i := strings.IndexByte(loc, ':'); i >= 0 {
+		return loc[:i]
+	}
+	return loc
+}
+
+// c38sig builds the structural signature, at ROOT-CAUSE level:
+//   - panic / process-crash: the call site (file:function of the first repository frame).
+//     One unchecked dereference is one defect whatever route, field or replacement reaches it.
+//   - 5xx: input class + class of the logged error (head and root of the chain, SQLSTATE).
+//   - no-response, state-changed-on-4xx: there is no server-side cause to key on: the route
+//     (+ input class). The error code of the 4xx says why the request was refused, not why
+//     its effect was kept: it is not part of the signature.
+//   - accepted / malformed-response / odd-status: route + pointer class + replacement class.
 func c38sig(c *mcase, outcome, cause string) string {
 	switch outcome {
-	case "panic", "process-crash", "5xx", "state-changed-on-4xx", "no-response":
-		return fmt.Sprintf("C38:%s:%s:%s:%s:%s", c.Seed.API, c.Seed.Route, locKind(c.Loc), outcome, cause)
+	case "panic", "process-crash":
+		return fmt.Sprintf("C38:%s:%s", outcome, cause)
+	case "5xx":
+		return fmt.Sprintf("C38:5xx:%s:%s", coarseKind(c.Loc), cause)
+	case "no-response":
+		return fmt.Sprintf("C38:no-response:%s:%s:%s", c.Seed.API, c.Seed.Route, coarseKind(c.Loc))
+	case "state-changed-on-4xx":
+		return fmt.Sprintf("C38:state-changed-on-4xx:%s:%s", c.Seed.API, c.Seed.Route)
 	}
 	return fmt.Sprintf("C38:%s:%s:%s:%s:%s", c.Seed.API, c.Seed.Route, c.Loc, c.Repl, outcome)
 }
@@ -651,8 +681,13 @@ func execC38(boot *pgsim.DB, c *mcase) caseResult {
 	if c.Must {
 		res.Counts["must"]++
 	}
+	res.Counts["seed:"+c.Seed.id()]++
+	if c.Sanity {
+		res.Counts["sanity"]++
+	}
 	if resp.Status >= 400 && resp.Status < 500 {
 		res.Counts["rejected"]++
+		res.Counts["rejected:"+kind]++
 		if c.Must {
 			res.Counts["must_rejected"]++
 		}
@@ -725,6 +760,16 @@ func runC38(r *ev.Run) (ev.Coverage, []string) {
 	counts := map[string]int64{}
 	distinct := map[string]bool{}
 	inconclusiveSeen := map[string]bool{}
+	// development aid: C38_TRACE=<file> lists EVERY violating case (not only the first per signature)
+	if tf := os.Getenv("C38_TRACE"); tf != "" && c38Trace == nil {
+		if f, err := os.Create(tf); err == nil {
+			defer f.Close()
+			c38Trace = func(sig string, c *mcase, what string) {
+				fmt.Fprintf(f, "%s\t%s\t%s=%s\t%s\n", sig, c.Seed.id(), c.Loc, c.Repl, what)
+			}
+			defer func() { c38Trace = nil }()
+		}
+	}
 	samples := ev.NewSamples(6)
 	var evals int64
 	deadline := time.Now().Add(budgetOf(r, c38Quick, c38Thorough) - r.Elapsed())
@@ -779,9 +824,30 @@ func runC38(r *ev.Run) (ev.Coverage, []string) {
 	if err != nil {
 		r.EngineError("isolation: " + err.Error())
 	}
-	if r.ViolationCount() == 0 && exhaustive && !r.HasEngineError() {
+	// Vacuity guards (whatever the violations, known or not: they are about what RAN).
+	if exhaustive && !r.HasEngineError() {
+		if int(evals) != len(p.cases) {
+			r.EngineError(fmt.Sprintf("vacuous: %d cases planned, %d results collected", len(p.cases), evals))
+		}
 		if counts["rejected"] == 0 || counts["accepted"] == 0 || counts["must_rejected"] == 0 || counts["sanity_ok"] == 0 {
 			r.EngineError(fmt.Sprintf("vacuous: rejected=%d accepted=%d must-rejected=%d sanity-ok=%d", counts["rejected"], counts["accepted"], counts["must_rejected"], counts["sanity_ok"]))
+		}
+		// every input class must have been exercised AND have met the validation it targets
+		for _, k := range []string{"body", "query", "query-filter", "filter", "cursor", "cursor-json", "header", "path"} {
+			if counts["kind:"+k] == 0 || counts["rejected:"+k] == 0 {
+				r.EngineError(fmt.Sprintf("vacuous: input class %s: %d cases, %d rejected with 4xx", k, counts["kind:"+k], counts["rejected:"+k]))
+			}
+		}
+		// every seed (route variant) must have produced cases that were answered
+		for i := range p.ctx.seeds {
+			if id := p.ctx.seeds[i].id(); counts["seed:"+id] == 0 {
+				r.EngineError("vacuous: no answered case for seed " + id)
+			}
+		}
+		// the sanity cases (valid cursor, idempotent replay) must all have passed, otherwise
+		// the neighbouring "must be rejected" cases prove nothing
+		if counts["sanity"] != counts["sanity_ok"] {
+			r.EngineError(fmt.Sprintf("vacuous: %d sanity cases, %d accepted", counts["sanity"], counts["sanity_ok"]))
 		}
 	}
 	outcomes, kinds := map[string]int64{}, map[string]int64{}
@@ -808,7 +874,7 @@ func runC38(r *ev.Run) (ev.Coverage, []string) {
 		"exhaustive":                                exhaustive,
 		"samples":                                   samples.List(),
 		"stream_documents_mutated":                  map[bool]string{true: "all", false: "first of each log type"}[r.Thorough()],
-		"rule":                                      "one valid seed request per v1/v2 route (exporters/pipelines and bucket deletion excluded) on a clone of a booted+seeded pgsim database; mutations one at a time: every JSON pointer of the body (and of the query-string filter, and of the decoded cursor) x {null,true,0,-1,1.5,1e400,\"\",\"x\",[],{},2^70,300-char string} + delete; bad dates on date-valued fields/params; every query parameter x {-1,0,abc,1e9,empty,300 chars}; cursors x {garbage, base64 of invalid JSON/non-object/text, truncated}; malformed filters; named invalid addresses/assets/variable values; empty/truncated/non-JSON body; Content-Type; Idempotency-Key reused with a different input; path id/address. Oracle: no 5xx/panic/process crash, well-formed body for the status, 4xx leaves the dump unchanged (except non-atomic bulk, whose elements are independent by contract), definitely-invalid input (explicit table) is 4xx; in-doubt mutations may be 2xx or 4xx",
+		"rule":                                      "one valid seed request per v1/v2 route (exporters/pipelines and bucket deletion excluded) on a clone of a booted+seeded pgsim database; mutations one at a time: every JSON pointer of the body (and of the query-string filter, and of the decoded cursor) x {null,true,0,-1,1.5,1e400,\"\",\"x\",[],{},2^70,300-char string} + delete; bad dates on date-valued fields/params; every query parameter of the seed, and the parameters the handler reads although the seed omits them (after, page_size, schemaVersion, expand, pit), x {-1,0,abc,1e9,empty,300 chars}; cursors x {garbage, base64 of invalid JSON/non-object/text, truncated}; malformed filters; named invalid addresses/assets/variable values; empty/truncated/non-JSON body; Content-Type; Idempotency-Key reused with a different input; path id/address. Oracle: no 5xx/panic/process crash, well-formed body for the status, 4xx leaves the dump unchanged (except non-atomic bulk, whose elements are independent by contract), definitely-invalid input (explicit table) is 4xx; in-doubt mutations may be 2xx or 4xx. Signatures are at root-cause level: panic/process-crash = call site; 5xx = input class + logged error class; state-changed-on-4xx = route; accepted/malformed = route + pointer class + replacement class",
 	}
 	return cov, assumptions
 }
